@@ -151,7 +151,8 @@ def _translate_test(test, z3, path, p):
 def smt(tier, seed, exclude):
     import z3
     import pydra.utils.mount_identifier as mi
-    assert mi.__file__.startswith("/repo/")
+    import os
+    assert mi.__file__.startswith(os.environ.get("VF_REPO", "/repo").rstrip("/") + "/")
     fn_src = inspect.getsource(mi.MountIndentifier.get_mount)
     import textwrap
     tree = ast.parse(textwrap.dedent(fn_src))
